@@ -141,7 +141,7 @@ def extract(tier="quick", repo=REPO, quiet=False, _retry=True):
         return out, th, nfiles, True, time.time() - t0
 
 
-def _prune(keep, maxn=6):
+def _prune(keep, maxn=14):
     root = os.path.join(CACHE, "facts")
     ds = [os.path.join(root, d) for d in os.listdir(root)]
     ds = sorted((d for d in ds if d != keep), key=os.path.getmtime, reverse=True)
